@@ -190,6 +190,10 @@ def windowStart : Variant → Period → Int → Int
     /repo change `.current` to `.fixed` here (nothing else). -/
 def live : Variant := .current
 
+/-- SECOND SWITCH: does /repo still dereference the nil amount of a zero-coin infrastructure mint
+    (findings/C19-infra-zero-mint-panic.md)?  Change to `false` when that fix is applied. -/
+def liveZeroMintPanics : Bool := true
+
 /-- the `switch` of mintIncentivePeriods / mintInfrastructurePeriods, case by case, in order -/
 inductive PCase where
   | expired      -- Case 1: period.End.Before(previousBlockTime)
@@ -285,9 +289,10 @@ def secsFor (k : Nat) : List Mint → Int
 
 /-- `mintInflationaryCoins`: the amount minted for `secs` periods at per-second rate `rate` on total
     supply `supply`; `pow x n` stands for `sdkmath.RelativePow(x, n, 10^18)` -/
+def inflationInt (rate : Dec) : Int := Dec.truncateInt (Dec.mul rate (Dec.ofInt P))
+
 def mintAmount (pow : Int → Int → Int) (supply : Int) (rate : Dec) (secs : Int) : Int :=
-  let inflationInt := Dec.truncateInt (Dec.mul rate (Dec.ofInt P))
-  let accumulator := Dec.mul ⟨pow inflationInt secs * P⟩ Dec.smallest
+  let accumulator := Dec.mul ⟨pow (inflationInt rate) secs * P⟩ Dec.smallest
   Dec.truncateInt (Dec.sub (Dec.mul (Dec.ofInt supply) accumulator) (Dec.ofInt supply))
 
 /-- thread the supply through a list of mints: (minted amounts, new supply) -/
@@ -342,12 +347,28 @@ def order3 : List String :=
 structure Chain where
   comm : CommSt
   kd : KdSt
+  supply : Int                   -- bank supply of ukava
   fired : Bool := false          -- the switch-over fired in this block
   paid : Int := 0                -- staking rewards paid in this block
   kdMints : List Mint := []      -- kavadist mint calls of this block (incentive ++ infrastructure)
-deriving Repr
+  kdMinted : Int := 0            -- coins kavadist minted in this block
+deriving Repr, DecidableEq
 
-def moduleStep (v : Variant) (now inflow : Int) (c : Res Chain) (name : String) : Res Chain :=
+/-- x/kavadist `BeginBlocker` (no partner / core rewards configured).  `mintInflationaryCoins` returns
+    the empty `sdk.Coin{}` (nil amount) when it mints nothing, and `mintInfrastructurePeriods` then calls
+    `coins.IsZero()` on it: a nil dereference, i.e. a begin-block panic, whenever an infrastructure
+    period's mint call yields zero coins (finding, findings/C19-infra-zero-mint-panic.md).
+    `mintIncentivePeriods` discards the coin, so a zero mint is harmless there.
+    `zp` = "the tree still has that nil dereference" (`liveZeroMintPanics` for /repo as it is). -/
+def kavadistBeginBlock (v : Variant) (zp : Bool) (pow : Int → Int → Int) (now : Int) (c : Chain) : Res Chain :=
+  let r := mintPeriodInflation v c.comm.infl.kavadistActive now c.kd
+  let a1 := applyMints pow c.supply r.2.1
+  let a2 := applyMints pow a1.2 r.2.2.1
+  if zp && a2.1.any (fun a => a == 0) then .panic
+  else .ok { c with kd := r.1, supply := a2.2, kdMints := r.2.1 ++ r.2.2.1, kdMinted := a2.2 - c.supply }
+
+def moduleStep (v : Variant) (zp : Bool) (pow : Int → Int → Int) (now inflow mintProv : Int) (c : Res Chain)
+    (name : String) : Res Chain :=
   match c with
   | .ok c =>
     if name == "community" then
@@ -355,13 +376,18 @@ def moduleStep (v : Variant) (now inflow : Int) (c : Res Chain) (name : String) 
       | .ok (s, f, p) => .ok { c with comm := s, fired := f, paid := p }
       | .err => .err
       | .panic => .panic
-    else if name == "kavadist" then
-      let r := mintPeriodInflation v c.comm.infl.kavadistActive now c.kd
-      .ok { c with kd := r.1, kdMints := r.2.1 ++ r.2.2.1 }
-    else .ok c        -- x/mint: provisions are a function of its own params (not modelled)
+    else if name == "mint" then
+      -- x/mint: its provisions are a function of its own params and the supply (not modelled);
+      -- `mintProv` is what it minted in this block
+      .ok { c with supply := c.supply + mintProv }
+    else if name == "kavadist" then kavadistBeginBlock v zp pow now c
+    else .ok c
   | r => r
 
-def chainBeginBlock (v : Variant) (now inflow : Int) (c : Chain) : Res Chain :=
-  order3.foldl (moduleStep v now inflow) (.ok { c with fired := false, paid := 0, kdMints := [] })
+/-- the begin blockers of community, mint, kavadist in the order app/app.go registers them -/
+def chainBeginBlock (v : Variant) (zp : Bool) (pow : Int → Int → Int) (now inflow mintProv : Int) (c : Chain) :
+    Res Chain :=
+  order3.foldl (moduleStep v zp pow now inflow mintProv)
+    (.ok { c with fired := false, paid := 0, kdMints := [], kdMinted := 0 })
 
 end KV.Em
